@@ -25,4 +25,4 @@ rc=$?
 if [ "${1:-}" = "--setup" ]; then
   exit 0
 fi
-python3 "$ROOT/corpus/compare.py" "$ROOT" "$S/fmttests/testdata/format" "$rc" "$BASE/out.txt" "${1:-quick}" "${2:-1}" "$start"
+python3 "$ROOT/corpus/compare.py" "${VERIF_OUT:-$ROOT}" "$ROOT" "$S/fmttests/testdata/format" "$rc" "$BASE/out.txt" "${1:-quick}" "${2:-1}" "$start"
